@@ -4,6 +4,7 @@ import (
 	"encoding/json"
 	"fmt"
 	"math"
+	"strings"
 	"testing"
 	"time"
 
@@ -287,6 +288,38 @@ func C05FaultScenarios(tier string) []*h.Scenario {
 			out = append(out, s)
 		}
 	}
+	// the provider is rebuilt (a refresh fails) between two scale-ups: the second amount must be
+	// computed on the cloud group as it is now
+	for _, fleet := range []bool{false, true} {
+		s := c07Rebuild(fleet)
+		s.Name = strings.Replace(s.Name, "c07.", "c05.", 1)
+		out = append(out, s)
+	}
+	// auto-discovered bounds: the operator raises the cloud maximum while escalator runs; the next
+	// scale-up may use the new room
+	{
+		g := StdGroup("g1")
+		g.Opts.MinNodes, g.Opts.MaxNodes = 0, 0
+		g.ASG.Min, g.ASG.Max = 1, 4
+		g.Opts.ScaleUpCoolDownPeriod = "30s"
+		s := &h.Scenario{Name: "c05.auto-max-raised", Groups: []h.GroupSpec{g}, Slots: 4, Quantum: Q, MaxEventsPerSlot: 1,
+			Init: func(hh *h.Hist) {
+				a := InitASGs(hh)[0]
+				for i := 0; i < 3; i++ {
+					n := hh.W.AddNode(a, sim.NodeOpt{Age: time.Duration(10+i) * Q})
+					hh.W.AddPod(podOn(g, n.Name, 1000))
+				}
+				hh.W.AddPod(podOn(g, "", 1000))
+			},
+			Script: func(hh *h.Hist, slot int) {
+				if slot == 1 {
+					hh.W.FindASG(g.ASG.Name).Max = 10
+				}
+			},
+			Events: func(hh *h.Hist, slot int) []h.Event { return []h.Event{evRestart(), evBurst(g, 1, 1000)} },
+		}
+		out = append(out, s)
+	}
 	return out
 }
 
@@ -477,7 +510,7 @@ func init() {
 			}
 			return 1
 		},
-		Nontrivial: seenKeys,
+		Nontrivial:  seenKeys,
 		Assumptions: append([]string{"oracle: N_min = least N with 100*R_cpu <= T*N*c and 100*R_mem <= T*N*m in integer arithmetic; magnitudes beyond 12 nodes x 256 GiB are not covered (no random tier: the family is exhaustive enumeration)"}, commonAssumptions...),
 	})
 }
